@@ -974,7 +974,7 @@ def make_source_task(world: World, tspec: dict) -> Any:
 
 
 # ------------------------------------------------------------------------ endpoints
-def make_endpoint(world: World, node: str, worker: Optional[int] = None, gen: int = 0) -> SimBroker:
+def make_endpoint(world: World, node: str, worker: Optional[int] = None, gen: int = 0, defer_late: bool = False) -> SimBroker:
     cfg = world.config
     br = SimBroker(world, node, worker, gen)
     br.with_id_generator(lambda: _gen_id(world))
@@ -996,18 +996,53 @@ def make_endpoint(world: World, node: str, worker: Optional[int] = None, gen: in
             ))
         else:
             mws.append(make_middleware(world, i, ms))
+    if worker is None and cfg.get("client_label_adder"):
+        mws.append(_LabelAdder(world))
     br.add_middlewares(*mws)
+    register_tasks(world, br, worker, late=False, defer_late=defer_late)
+    return br
+
+
+class _LabelAdder(TaskiqMiddleware):
+    """A client-side pre_send middleware that attaches labels to the outgoing message (a default timeout, an origin tag).
+    The kicker computed ``labels_types`` before pre_send ran, so these labels travel without a type entry."""
+
+    def __init__(self, world: "World") -> None:
+        super().__init__()
+        self.world = world
+
+    def pre_send(self, message: Any) -> Any:
+        w = self.world
+        m = w.msgs.get(w.k_of(message.task_id, message.task_name))
+        if m is None:
+            return message
+        for name, val in (m.get("mw_labels") or {}).items():
+            message.labels[name] = val
+            w.fired("untyped_label_added_by_middleware")
+        if m.get("timeout_untyped") and m.get("timeout") is not None:
+            message.labels["timeout"] = repr(float(m["timeout"]))
+            w.fired("untyped_label_added_by_middleware")
+        return message
+
+
+def register_tasks(world: World, br: Any, worker: Optional[int], late: bool, defer_late: bool = False) -> None:
+    """Register the task templates on an endpoint. Templates flagged ``register_late`` are registered on a worker endpoint only
+    after its Receiver has been constructed (``late=True`` call), so the receiver prepares them lazily on their first execution."""
     for ts in world.tasks:
         if ts.get("client_only") and worker is not None:
+            continue
+        is_late = bool(ts.get("register_late")) and worker is not None and defer_late
+        if is_late != late:
             continue
         labels = {k: dec_label(v) for k, v in ts.get("labels", {}).items()}
         fn = make_task_func(world, ts)
         br.register_task(fn, task_name=ts["name"], **labels)
+        if late:
+            world.fired("task_registered_after_receiver_creation")
         if worker is not None:
             funcs = getattr(fn, "_dep_funcs", {})
             for orig, repl in ts.get("overrides", []):
                 br.dependency_overrides[funcs[orig]] = funcs[repl]
-    return br
 
 
 def _gen_id(world: World) -> str:
@@ -1242,7 +1277,7 @@ def start_worker(world: World, w: int) -> None:
         return
 
     async def worker_main() -> None:
-        br = make_endpoint(world, node, worker=w, gen=gen)
+        br = make_endpoint(world, node, worker=w, gen=gen, defer_late=True)
         br.is_worker_process = True
         info["broker"] = br
         RecReceiver.world = world
@@ -1259,6 +1294,7 @@ def start_worker(world: World, w: int) -> None:
             wait_tasks_timeout=cfg.get("W"),
         )
         info["receiver"] = rcv
+        register_tasks(world, br, w, late=True, defer_late=True)     # tasks that appear only after the Receiver exists
         info["finish"] = asyncio.Event()
         world.rec("listen_start", None, w=w, gen=gen)
         try:
@@ -1332,7 +1368,7 @@ async def _send(world: World, client: SimBroker, m: dict) -> None:
                 async_shared_broker.default_broker(client)
             kicker = task.kicker()
             labels = {name: dec_label(v) for name, v in (m.get("labels") or {}).items()}
-            if m.get("timeout") is not None:
+            if m.get("timeout") is not None and not (m.get("timeout_untyped") and world.config.get("client_label_adder")):
                 labels["timeout"] = m["timeout"]
             if labels:
                 kicker = kicker.with_labels(**labels)
